@@ -2010,6 +2010,11 @@ class Stream(AbstractStream):
         new._property_cache_key = None, None
         new.equations = self.equations
         new.characterization_factors = self.characterization_factors
+        if self._imol.data.ndim == 2: # Multi-phase: phase views and equilibrium objects work on the shared data
+            new._streams = self._streams
+            new._vle_cache = self._vle_cache
+            new._lle_cache = self._lle_cache
+            new._sle_cache = self._sle_cache
         return new
     
     def empty(self):
